@@ -320,7 +320,7 @@ class DPSKDemodulator(BaseDemodulator):
                 min_dist_1 = self._min_distance_to_points(z, const_bit_1, effective_noise_var)
 
                 # Calculate LLR: log(P(bit=0)/P(bit=1))
-                llrs[..., bit_idx] = min_dist_1 - min_dist_0
+                llrs[..., bit_idx] = min_dist_0 - min_dist_1
 
             return llrs.reshape(*batch_shape, -1)
 
